@@ -78,7 +78,7 @@ func main() {
 	os.RemoveAll(*work)
 	to := *timeout
 	if to == 0 {
-		to = 10
+		to = 15
 		if *tier == "thorough" {
 			to = 60
 		}
